@@ -9,7 +9,11 @@
  *   ser <T> <count> <cap>       -> ok <hex> | err:<kind>
  *        object from calloc, count as given (may exceed every capacity), the elements that exist set to 0x11.., output
  *        buffer malloc(<cap>) exactly
- * T = S8 | S16 | S7 (capacity 6) | B255 | W255 | B65535 | B15 | B7 (capacity = 2^k-1).  Hand-written against the PyDSDL definitions, not derived from the templates.
+ *   null <T> ser|de <mask> [<hex>]  -> as ser / de; mask bit 1: object pointer NULL, 2: buffer pointer NULL, 4: size pointer NULL
+ * T = S8 | S16 | S7 (capacity 6) | B255 | W255 | B65535 | B15 | B7 (capacity = 2^k-1) | Bits20 | Bits255 | Bits9u (bool arrays:
+ * `sl` of `info` is sizeof(bitpacked) in BYTES).  Hand-written against the PyDSDL definitions, not derived from the templates.
+ * Error names come from c04_codes.h, which the harness writes from the translator's table of documented codes
+ * (translate/c_array_kinds.py); a code outside the table is answered err:undocumented-code-<n>.
  */
 #define _POSIX_C_SOURCE 200809L
 #include "ov/S8_1_0.h"
@@ -20,23 +24,16 @@
 #include "ov/B65535_1_0.h"
 #include "ov/B15_1_0.h"
 #include "ov/B7_1_0.h"
+#include "ov/Bits20_1_0.h"
+#include "ov/Bits255_1_0.h"
+#include "ov/Bits9u_1_0.h"
+#include "c04_codes.h"
 #include <stddef.h>
 #include <stdio.h>
 #include <stdlib.h>
 #include <string.h>
 
-static const char* err_name(int rc)
-{
-    switch (-rc)
-    {
-    case 2: return "err:invalid-argument";
-    case 3: return "err:buffer-too-small";
-    case 10: return "err:bad-array-length";
-    case 11: return "err:bad-union-tag";
-    case 12: return "err:bad-delimiter-header";
-    default: return "err:unknown-code";
-    }
-}
+#define err_name(rc) c04_c_err_name(rc)
 
 static size_t unhex(const char* s, uint8_t** out)
 {
@@ -54,10 +51,10 @@ static size_t unhex(const char* s, uint8_t** out)
 #ifdef C04_NO_CHECK_MACRO
 #endif
 
-#define HANDLE(T, NAME, CHECKMACRO, CAP)                                                                                   \
+#define HANDLE_M(T, NAME, CHECKMACRO, CAP, MEMBER, SLDIV)                                                                                  \
     static int handle_##NAME(const char* op, const char* rest)                                                        \
     {                                                                                                                 \
-        const size_t sl = sizeof(((T*) 0)->xs.elements) / sizeof(((T*) 0)->xs.elements[0]);                           \
+        const size_t sl = sizeof(((T*) 0)->xs.MEMBER) / SLDIV;                                                        \
         if (!strcmp(op, "info"))                                                                                      \
         {                                                                                                             \
             printf("ok sl=%zu cap=%d check=%d sizeof=%zu\n", sl, CAP, CHECKMACRO, sizeof(T));                          \
@@ -74,7 +71,7 @@ static size_t unhex(const char* s, uint8_t** out)
             /* bytes that no correct run may touch: everything outside a, elements[0..sl), count, b */                \
             uint8_t* mask = (uint8_t*) calloc(1, sizeof(T));                                                          \
             memset(mask + offsetof(T, a), 1, sizeof(o->a));                                                           \
-            memset(mask + offsetof(T, xs.elements), 1, sizeof(o->xs.elements));                                       \
+            memset(mask + offsetof(T, xs.MEMBER), 1, sizeof(o->xs.MEMBER));                                           \
             memset(mask + offsetof(T, xs.count), 1, sizeof(o->xs.count));                                             \
             memset(mask + offsetof(T, b), 1, sizeof(o->b));                                                           \
             int guard = 0;                                                                                            \
@@ -91,7 +88,7 @@ static size_t unhex(const char* s, uint8_t** out)
             if (sscanf(rest, "%lu %lu", &count, &cap) != 2) { return 0; }                                             \
             T* o = (T*) calloc(1, sizeof(T));                                                                         \
             o->a = 0x0A; o->b = 0x0B;                                                                                 \
-            for (size_t i = 0; i < sl; i++) { o->xs.elements[i] = (uint8_t) (0x11 * (i + 1)); }                       \
+            for (size_t i = 0; i < sl; i++) { o->xs.MEMBER[i] = (uint8_t) (0x11 * (i + 1)); }                         \
             o->xs.count = count;                                                                                      \
             uint8_t* bufbase = (uint8_t*) malloc(cap ? cap : 1);                                                      \
             uint8_t* buf = cap ? bufbase : bufbase + 1;                                                               \
@@ -102,8 +99,40 @@ static size_t unhex(const char* s, uint8_t** out)
             free(bufbase); free(o);                                                                                   \
             return 1;                                                                                                 \
         }                                                                                                             \
+        if (!strcmp(op, "null"))                                                                                      \
+        {                                                                                                             \
+            char which[8] = {0};                                                                                      \
+            unsigned mask = 0;                                                                                        \
+            int used = 0;                                                                                             \
+            if (sscanf(rest, "%7s %u%n", which, &mask, &used) < 2) { return 0; }                                      \
+            T* o = (T*) calloc(1, sizeof(T));                                                                         \
+            o->a = 0x0A; o->b = 0x0B;                                                                                 \
+            int rc = 0;                                                                                               \
+            if (!strcmp(which, "ser"))                                                                                \
+            {                                                                                                         \
+                uint8_t* buf = (uint8_t*) malloc(80000);                                                              \
+                size_t size = 80000;                                                                                  \
+                rc = T##_serialize_((mask & 1U) ? NULL : o, (mask & 2U) ? NULL : buf, (mask & 4U) ? NULL : &size);    \
+                if (rc < 0) { printf("%s\n", err_name(rc)); } else { printf("ok %zu\n", size); }                      \
+                free(buf);                                                                                            \
+            }                                                                                                         \
+            else                                                                                                      \
+            {                                                                                                         \
+                uint8_t* in = NULL;                                                                                   \
+                const size_t n = unhex(rest + used, &in);                                                             \
+                size_t sz = n;                                                                                        \
+                rc = T##_deserialize_((mask & 1U) ? NULL : o, (mask & 2U) ? NULL : in, (mask & 4U) ? NULL : &sz);     \
+                if (rc < 0) { printf("%s\n", err_name(rc)); } else { printf("ok %zu %zu\n", o->xs.count, sz); }       \
+                free(n ? in : in - 1);                                                                                \
+            }                                                                                                         \
+            free(o);                                                                                                  \
+            return 1;                                                                                                 \
+        }                                                                                                             \
         return 0;                                                                                                     \
     }
+
+#define HANDLE(T, NAME, CHECKMACRO, CAP) HANDLE_M(T, NAME, CHECKMACRO, CAP, elements, sizeof(((T*) 0)->xs.elements[0]))
+#define HANDLE_BITS(T, NAME, CHECKMACRO, CAP) HANDLE_M(T, NAME, CHECKMACRO, CAP, bitpacked, 1U)
 
 #ifdef ov_S8_1_0_DISABLE_SERIALIZATION_BUFFER_CHECK_
 #    define S8_CHECK 0
@@ -145,6 +174,21 @@ static size_t unhex(const char* s, uint8_t** out)
 #else
 #    define B7_CHECK 1
 #endif
+#ifdef ov_Bits20_1_0_DISABLE_SERIALIZATION_BUFFER_CHECK_
+#    define Bits20_CHECK 0
+#else
+#    define Bits20_CHECK 1
+#endif
+#ifdef ov_Bits255_1_0_DISABLE_SERIALIZATION_BUFFER_CHECK_
+#    define Bits255_CHECK 0
+#else
+#    define Bits255_CHECK 1
+#endif
+#ifdef ov_Bits9u_1_0_DISABLE_SERIALIZATION_BUFFER_CHECK_
+#    define Bits9u_CHECK 0
+#else
+#    define Bits9u_CHECK 1
+#endif
 
 HANDLE(ov_S8_1_0, S8, S8_CHECK, 6)
 HANDLE(ov_S16_1_0, S16, S16_CHECK, 6)
@@ -154,6 +198,9 @@ HANDLE(ov_W255_1_0, W255, W255_CHECK, 255)
 HANDLE(ov_B65535_1_0, B65535, B65535_CHECK, 65535)
 HANDLE(ov_B15_1_0, B15, B15_CHECK, 15)
 HANDLE(ov_B7_1_0, B7, B7_CHECK, 7)
+HANDLE_BITS(ov_Bits20_1_0, Bits20, Bits20_CHECK, 20)
+HANDLE_BITS(ov_Bits255_1_0, Bits255, Bits255_CHECK, 255)
+HANDLE_BITS(ov_Bits9u_1_0, Bits9u, Bits9u_CHECK, 9)
 
 int main(void)
 {
@@ -178,6 +225,9 @@ int main(void)
             else if (!strcmp(ty, "B65535")) { ok = handle_B65535(op, rest); }
             else if (!strcmp(ty, "B15")) { ok = handle_B15(op, rest); }
             else if (!strcmp(ty, "B7")) { ok = handle_B7(op, rest); }
+            else if (!strcmp(ty, "Bits20")) { ok = handle_Bits20(op, rest); }
+            else if (!strcmp(ty, "Bits255")) { ok = handle_Bits255(op, rest); }
+            else if (!strcmp(ty, "Bits9u")) { ok = handle_Bits9u(op, rest); }
         }
         if (!ok) { puts("err:bad-op"); }
         fflush(stdout);
